@@ -1940,3 +1940,144 @@ twin('C18', 'backup-locals-renamed', RZPY, 'do_backup',
         srcfp.close()
         whole_digest = srcsum
         if srcsz == reposz and whole_digest == reposum:''')
+
+# ------------------------------------------------- rules added in seeded round 3
+twin('C04', 'undo-write-otloc-via-local', FSPY, 'FileStorage._txn_undo_write',
+     '''        otloc = self._pos
+        here = self._pos + self._tfile.tell() + self._thl''',
+     '''        committed_end = self._pos
+        otloc = committed_end
+        here = committed_end + self._tfile.tell() + self._thl''')
+breaker('C04', 'undo-write-otloc-plus-header', 'C04.R7', FSPY,
+        'FileStorage._txn_undo_write',
+        '''        otloc = self._pos
+        here = self._pos + self._tfile.tell() + self._thl''',
+        '''        here = self._pos + self._tfile.tell() + self._thl
+        otloc = here - self._thl''')
+twin('C04', 'fs-finish-tid-read-first', FSPY, 'FileStorage.tpc_finish',
+     '''                try:
+                    tid = self._tid
+                    if f is not None:''',
+     '''                tid = self._tid
+                try:
+                    if f is not None:''')
+breaker('C04', 'bs-finish-tid-after-both-locks', 'C04.R8', BSPY,
+        'BaseStorage.tpc_finish',
+        '''                self._commit_lock.release()
+            return self._tid''',
+        '''                self._commit_lock.release()
+        return self._tid''')
+breaker('C02', 'blob-invalidate-changed-only', 'C02.R10', BLOBPY,
+        'Blob._p_invalidate',
+        '''        if self._p_changed is None:
+            return''',
+        '''        if not self._p_changed:
+            return''')
+twin('C02', 'blob-invalidate-ghost-test-flipped', BLOBPY, 'Blob._p_invalidate',
+     '''        if self._p_changed is None:
+            return
+        for ref in (self.readers or []) + (self.writers or []):''',
+     '''        if None is self._p_changed:
+            return None
+        for ref in (self.readers or []) + (self.writers or []):''')
+breaker('C03', 'checkcurrent-none-means-ok', 'C03.R9', BSPY,
+        'checkCurrentSerialInTransaction',
+        '''    committed_tid = self.getTid(oid)
+    if committed_tid != serial:''',
+        '''    committed_tid = self.getTid(oid)
+    if committed_tid is None:
+        return
+    if committed_tid != serial:''')
+twin('C03', 'checkcurrent-equal-form', BSPY, 'checkCurrentSerialInTransaction',
+     '''    if committed_tid != serial:
+        raise POSException.ReadConflictError(
+            oid=oid, serials=(committed_tid, serial))''',
+     '''    if serial == committed_tid:
+        return
+    raise POSException.ReadConflictError(
+        oid=oid, serials=(committed_tid, serial))''')
+breaker('C06', 'undo-compares-undone-with-pre', 'C06.R7', FSPY,
+        'FileStorage._transactionalUndoRecord',
+        'current_data = self._loadBack_impl(oid, cdataptr)[0]',
+        'current_data = self._loadBack_impl(oid, pre)[0]')
+twin('C06', 'undo-current-data-operands-swapped', FSPY,
+     'FileStorage._transactionalUndoRecord',
+     'if data_to_be_undone != current_data:',
+     'if not current_data == data_to_be_undone:')
+breaker('C05', 'pool-flush-empty-before-write-lock', 'C05.R2', FSPY,
+        'FilePool.flush',
+        '''        with self.write_lock():
+            self.empty()''',
+        '''        self.empty()
+        with self.write_lock():
+            pass''')
+breaker('C05', 'undo-dm-begin-before-storage-set', 'C05.R5', DBPY,
+        'TransactionalUndo.tpc_begin',
+        '''        transaction.set_data(self, tdata)
+''', '''        transaction.set_data(None, tdata)
+        self._storage.tpc_begin(tdata)
+''')
+breaker('C08', 'fs-pack-refusal-inside-try', 'C08.R3', BLOBPY,
+        'BlobStorage.pack',
+        '''        finally:
+            with self._lock:
+                self._blobs_pack_is_in_progress = False''',
+        '''        finally:
+            self._blobs_pack_is_in_progress = False''')
+breaker('C08', 'loadbefore-lookup-outside-pool', 'C08.R8', FSPY,
+        'FileStorage.loadBefore',
+        '''        with self._files.get() as _file:
+            pos = self._lookup_pos(oid)''',
+        '''        pos = self._lookup_pos(oid)
+        with self._files.get() as _file:''')
+twin('C08', 'load-lookup-via-helper-local', FSPY, 'FileStorage.load',
+     '''        with self._files.get() as _file:
+            pos = self._lookup_pos(oid)
+            h = self._read_data_header(pos, oid, _file)''',
+     '''        with self._files.get() as _file:
+            where = self._lookup_pos(oid)
+            pos = where
+            h = self._read_data_header(pos, oid, _file)''')
+breaker('C11', 'conn-vote-cleanup-on-error', 'C11.R8', CONNPY,
+        'Connection.tpc_finish',
+        '''        serial = self._storage.tpc_finish(transaction)
+        assert type(serial) is bytes, repr(serial)''',
+        '''        try:
+            serial = self._storage.tpc_finish(transaction)
+        except BaseException:
+            self._creating.clear()
+            raise
+        assert type(serial) is bytes, repr(serial)''')
+twin('C11', 'conn-finish-logs-and-reraises', CONNPY, 'Connection.tpc_finish',
+     '''        serial = self._storage.tpc_finish(transaction)
+        assert type(serial) is bytes, repr(serial)''',
+     '''        try:
+            serial = self._storage.tpc_finish(transaction)
+        except Exception:
+            self._log.error("tpc_finish failed")
+            raise
+        assert type(serial) is bytes, repr(serial)''')
+breaker('C12', 'blob-open-r-from-db-storage', 'C12.R10', BLOBPY, 'Blob.open',
+        'with open(self._p_blob_committed, \'rb\') as fp:',
+        'with self._p_jar._db._storage.openCommittedBlobFile(\n'
+        '                                self._p_oid, self._p_serial) as fp:')
+breaker('C13', 'undo-blob-copy-only-first', 'C13.R10', FSPY,
+        'FileStorage._txn_undo_write',
+        'if self.is_blob_record(up):',
+        'if self.is_blob_record(up) and h.oid not in tindex:')
+twin('C13', 'undo-blob-test-in-local', FSPY, 'FileStorage._txn_undo_write',
+     'if self.is_blob_record(up):',
+     'if up and self.is_blob_record(up):')
+breaker('C13', 'pack-blob-check-skips-backpointers', 'C13.R11', PACKPY,
+        'FileStoragePacker.copyDataRecords',
+        '                if self.pack_blobs:',
+        '                if self.pack_blobs and not h.back:')
+breaker('C13', 'commit-savepoint-blob-from-cache', 'C13.R12', CONNPY,
+        'Connection._commit_savepoint',
+        'if isinstance(self._reader.getGhost(data), Blob):',
+        'if isinstance(self._cache.get(oid), Blob):')
+twin('C13', 'commit-savepoint-ghost-in-local', CONNPY,
+     'Connection._commit_savepoint',
+     'if isinstance(self._reader.getGhost(data), Blob):',
+     '''ghost = self._reader.getGhost(data)
+                if isinstance(ghost, Blob):''')
